@@ -89,6 +89,19 @@ def dict_trees(rng):
         U.CSeq([{'k2': a, 'k1': b}, defaultdict(list, {'z': c, 'a': d})]),
         (U.Point({'y': a, 'x': b}, None), U.CNs([{'b': c, 'a': d}])),
     ]
+    # containers whose current order differs from their storage order / their construction order
+    od = OrderedDict([('y', a), ('x', b), ('w', c)])
+    od.move_to_end('y')
+    od.move_to_end('w', last=False)
+    od2 = OrderedDict([(2, d), (1, e), (3, a)])
+    od2.move_to_end(2)
+    dd = {'k3': a, 'k1': b, 'k2': c}
+    dd['k3'] = dd.pop('k3')  # delete + re-insert: now last
+    df = defaultdict(lambda: e)
+    df['z'] = a
+    df['m']  # auto-inserted by a lookup
+    df['a'] = b
+    fixed.append([od, {'n': od2, 'b': dd}, df])
     desc, _ = gen.gen_desc(rng, 'dicts', 10)
     t, _ = gen.materialize(desc, rng)
     return fixed + [t]
